@@ -61,6 +61,58 @@ def check_C04(run):
     return run.finish(rule="exactly singular matrices (empty rows/columns, Hall violations, duplicated lines) through ?gssv")
 
 
+def mc_mem(run, thorough_too=True):
+    run.model_check("Mem_q", "MC_Mem.tla", "MC_Mem_q.cfg")
+    # the allocator as it was before the fix: commits: TLC exhibits the violation the sweep reproduced (DESIGN 9.1/9.10)
+    run.model_check("Mem_legacy", "MC_Mem.tla", "MC_Mem_legacy.cfg", expect_violation=True, coverage=False)
+    if run.tier != "quick" and thorough_too:
+        for c in ("s64", "z", "fill2"):
+            run.model_check("Mem_" + c, "MC_Mem.tla", "MC_Mem_%s.cfg" % c)
+
+
+def check_C07(run):
+    mc_mem(run, thorough_too=False)
+    g = Gen(run.seed * 1000 + 7)
+    types = QUICK_TYPES if run.tier == "quick" else FULL_TYPES
+    scen = merge(F.fam_storage(g, "C07", sizes(run, 100, 600), types), F.fam_storage(g, "C07", sizes(run, 50, 300), types, fn="gsisx"))
+    # vendor BLAS (the configuration the tests use): bit-for-bit on exact (D2) scenarios, structure always
+    run.conform("storage", scen, ["C07."])
+    # bundled C BLAS loops: bit-for-bit whatever the data
+    g2 = Gen(run.seed * 1000 + 77)
+    scen2 = merge(F.fam_storage(g2, "C07", sizes(run, 100, 600), types), F.fam_storage(g2, "C07", sizes(run, 50, 300), types, fn="gsisx"))
+    run.conform("storage_cblas", scen2, ["C07."], variant="v1b", tv_env={"MODE": "light", "BITWISE": "all"})
+    if run.tier != "quick":
+        g3 = Gen(run.seed * 1000 + 78)
+        scen3 = F.fam_storage(g3, "C07", 400, types)
+        run.conform("storage_i64", scen3, ["C07."], variant="v1", tv_env={"MODE": "light", "BITWISE": "all"})
+    return run.finish(rule="per scenario one matrix factored with library allocation (fill 30 reference, fill 1,2,3) and caller workspaces of several sufficient lengths / alignments; all successful runs must agree bit for bit (vendor BLAS: on exact scenarios; bundled BLAS: always)")
+
+
+def check_C08(run):
+    mc_mem(run)
+    g = Gen(run.seed * 1000 + 8)
+    scen = {}
+    if run.tier == "quick":
+        scen["d"] = F.fam_sweep(g, "C08", "d", [(3, 1), (4, 2), (5, 4)], (0, 4))
+        scen["d"] += F.fam_sweep(g, "C08", "d", [(8, 1)], (0, 4), family="sweepU", arrow=True)
+        scen["d"] += F.fam_sweep(g, "C08", "d", [(4, 2)], (0, 4), fn="gsisx")
+        scen["z"] = F.fam_sweep(g, "C08", "z", [(3, 2)], (0, 4))
+    else:
+        for ty in ("d", "s", "z", "c"):
+            scen[ty] = F.fam_sweep(g, "C08", ty, [(2, 1), (3, 2), (4, 3), (5, 4), (6, 2), (4, 8)], (0, 4))
+            scen[ty] += F.fam_sweep(g, "C08", ty, [(8, 1), (7, 2)], (0, 4), family="sweepU", arrow=True)
+            scen[ty] += F.fam_sweep(g, "C08", ty, [(3, 1), (4, 2), (5, 4)], (0, 4), fn="gsisx")
+    run.conform("sweep", scen, ["C08.", "C07."], timeout=5, tv_env={"MODE": "light"})
+    # size query: lwork = -1 changes nothing but info / mem_usage
+    gq = Gen(run.seed * 1000 + 88)
+    types = QUICK_TYPES if run.tier == "quick" else FULL_TYPES
+    run.conform("query", F.fam_query(gq, "C08", sizes(run, 150, 1500), types), ["C08."], tv_env={"MODE": "light"})
+    # library allocation: every failure position among the allocation requests of a factorization
+    gf = Gen(run.seed * 1000 + 89)
+    run.conform("failpos", F.fam_failpos(gf, "C08", sizes(run, 12, 60), types), ["C08."], timeout=5, tv_env={"MODE": "light"})
+    return run.finish(rule="every workspace length in steps of one word up to beyond the requirement x both alignments for small systems with fill estimates 1..8 (LU and ILU); size queries; every allocation-failure position under library allocation")
+
+
 def replay(run, path):
     meta = json.load(open(os.path.join(path, "meta.json")))
     scen = []
